@@ -147,7 +147,10 @@ def present(spec):
         block = FFS[rs['ff']][1][rs['block']]
         nodes = list(block.nodes)
         order = nodes[:]
-        if rs.get('perm'):
+        if rs.get('perm') == 'element':
+            # atoms grouped by element (stable): two isomers then look alike until the bonds are read
+            order.sort(key=lambda n: block.nodes[n]['element'])
+        elif rs.get('perm'):
             rng.shuffle(order)
         names = {n: block.nodes[n]['atomname'] for n in nodes}
         mode = rs.get('names', 'keep')
@@ -515,6 +518,23 @@ def gen_specs(rng):
                     rng.shuffle(rs)
                     spec['residues'] = rs
                 specs.append(spec)
+    # isomer pairs in ONE molecule: same elements, same number of bonds, different connectivity, all atoms renamed
+    # and listed by element, so that anything shared between the residues of a molecule (caches) must key on the
+    # actual bonds
+    for ffname in ('charmm', 'amber', 'gromos'):
+        good = FFS[ffname][1]
+        groups = {}
+        for b in block_pool(ffname, 24, 4):
+            blk = good[b]
+            sig = (tuple(sorted(blk.nodes[n]['element'] for n in blk.nodes)), blk.number_of_edges())
+            groups.setdefault(sig, []).append(b)
+        pairs = [(a, b) for g in groups.values() for a in g for b in g if a < b]
+        pairs = [pr for pr in pairs if {'LEU', 'ILE'} == set(pr)] + rng.sample(pairs, min(len(pairs), 12 if chk.thorough else 3))
+        for a, b in pairs:
+            for first, second in ((a, b), (b, a)):
+                rs = [dict(ff=ffname, block=first, names='x', perm='element', link=False),
+                      dict(ff=ffname, block=second, names='x', perm='element', link=False)]
+                specs.append(dict(residues=rs, seed=rng.randrange(10 ** 9), keys='dense', include_graph=False))
     # hydrogen-free skeletons: the maximum is computed by the Lean reference
     for ffname in ('charmm_heavy', 'amber_heavy'):
         pool = block_pool(ffname, 10, 3)
